@@ -30,8 +30,18 @@ def run(ctx):
     streams.attach_replays(ctx, viols, scns)
     ctx.violations += viols
     acc = drift.check(ctx, files)
+    # the hybrid-mode API (the caller drives the transaction state functions himself): spec/HtpHybrid.tla, model-checked and bound by trace acceptance
+    import hybrid
+    hmc = hybrid.run_model(ctx)
+    hscn = hybrid.scenarios(ctx)
+    hfiles = streams.run_rec(ctx, exe, hscn, "c05hyb")
+    hexecs, hevents, hviols = streams.judge_obs(ctx, hfiles, PROPS)
+    streams.attach_replays(ctx, hviols, hscn)
+    ctx.violations += hviols
+    hacc = hybrid.accept(ctx, hfiles)
+    execs += hexecs; events += hevents
     vlib.finish(ctx, "model_checking", {
-        "model_acceptance": acc,
+        "model_acceptance": acc, "hybrid_api": dict(hmc, executions=hexecs, **hacc),
         "states": mc["distinct"], "transitions": mc["generated"], "traces_validated_against_impl": execs,
         "evaluations": execs, "distinct_nontrivial": len({s.text().split("\n", 1)[1] for s in scns if s.nbytes() > 0}),
         "events_judged": events, "model": mc["what"],
